@@ -444,7 +444,7 @@ func DecodeB64(b []byte) ([]byte, error) {
 }
 
 // DecodeWords decodes RFC 2047 encoded words in an unstructured value; white space between
-// adjacent encoded words is dropped (6.2). Only UTF-8 and US-ASCII charsets are interpreted.
+// adjacent encoded words is dropped (6.2). UTF-8, US-ASCII and ISO-8859-1 are interpreted (transcode).
 func DecodeWords(s string) (string, error) {
 	var out strings.Builder
 	i := 0
@@ -481,6 +481,31 @@ func DecodeWords(s string) (string, error) {
 	return out.String(), nil
 }
 
+// transcode maps the octets of an encoded word to Unicode according to its charset label: UTF-8 octets are kept as
+// they are, ISO-8859-1 octets are code points, and an octet above 127 under a US-ASCII label is no character of that
+// charset (U+FFFD) - a reader that trusts the label shows something else than what the octets say in another charset.
+func transcode(cs string, b []byte) string {
+	switch cs {
+	case "iso-8859-1":
+		r := make([]rune, len(b))
+		for i, c := range b {
+			r[i] = rune(c)
+		}
+		return string(r)
+	case "us-ascii":
+		var sb strings.Builder
+		for _, c := range b {
+			if c >= 0x80 {
+				sb.WriteRune(0xFFFD)
+			} else {
+				sb.WriteByte(c)
+			}
+		}
+		return sb.String()
+	}
+	return string(b)
+}
+
 func decodeWord(tok string) (string, bool, error) {
 	if !(strings.HasPrefix(tok, "=?") && strings.HasSuffix(tok, "?=") && len(tok) >= 8) {
 		return tok, false, nil
@@ -490,13 +515,13 @@ func decodeWord(tok string) (string, bool, error) {
 		return tok, false, nil
 	}
 	cs := strings.ToLower(parts[0])
-	if cs != "utf-8" && cs != "us-ascii" {
+	if cs != "utf-8" && cs != "us-ascii" && cs != "iso-8859-1" {
 		return "", false, fmt.Errorf("charset %q", parts[0])
 	}
 	switch strings.ToLower(parts[1]) {
 	case "b":
 		d, err := DecodeB64([]byte(parts[2]))
-		return string(d), true, err
+		return transcode(cs, d), true, err
 	case "q":
 		var b []byte
 		t := parts[2]
@@ -519,7 +544,7 @@ func decodeWord(tok string) (string, bool, error) {
 				b = append(b, t[k])
 			}
 		}
-		return string(b), true, nil
+		return transcode(cs, b), true, nil
 	}
 	return tok, false, nil
 }
